@@ -273,6 +273,9 @@ def zone_start(zone_breaks, i):
     return zone_breaks[i - 1]
 
 
+OPAQUE |= {"spec_calc_stat"}
+
+
 def spec_calc_stat(values_by_zones, zone_breaks, unique_zones, zone_ids, nzi, func, nodata, i):
     # statistic of exactly the finite, non-nodata values of zone i's run - or NaN when the zone is not selected / has none
     zv = valid_values(values_by_zones[zone_start(zone_breaks, i):zone_breaks[i]], nodata)
